@@ -225,6 +225,16 @@ func genTxProc(r *core.Rng, nstmts int) *txProc {
 			}
 		}
 	}
+	// after a COMMIT, the only change of the last transaction is a REPLACE that gives every existing key its own values in
+	// another spelling (upper case, a blank behind them): values that compare equal are still other values to be written
+	if nstmts > 0 && r.P(40) {
+		ft := st.Tables[0]
+		p.Units = append(p.Units, dumpUnit(st, "c"), "COMMIT;")
+		committed = st.clone()
+		p.Units = append(p.Units, fmt.Sprintf("REPLACE INTO `%s` (id, %s) USING (id) SELECT id, %s FROM `%s`;", ft.Name, ft.Cols[1], []string{"UPPER(%s)", "%s || ' '", "UPPER(%s) || ' '"}[r.Intn(3)], ft.Name))
+		p.Units[len(p.Units)-1] = strings.ReplaceAll(p.Units[len(p.Units)-1], "%s)", ft.Cols[1]+")")
+		p.Units[len(p.Units)-1] = strings.ReplaceAll(p.Units[len(p.Units)-1], "%s ||", ft.Cols[1]+" ||")
+	}
 	// a table in a format without a header line loses all its records shortly before the end (about every other
 	// procedure that has one): the final COMMIT then has nothing to write for it and must either write that or fail as a whole
 	if nstmts > 0 {
